@@ -27,7 +27,17 @@
     `SetColumnPosition` + `swapOrder`, DROP COLUMN, MODIFY COLUMN, keys, indexes, foreign keys), carried by the relation
     `Rel` (consistent maps, no pending position, every record created in this history, same view).
 
-  Missing: the same for primary keys, indexes and foreign keys, and for RENAME COLUMN (a
+  * `indexes_and_foreign_keys` — **… and on indexes and foreign keys**: for every script of any length over that
+    vocabulary less DROP PRIMARY KEY and less an index that is itself called `primary_key` (`Stmt.elemSafe`), table by
+    table the loaded model's index records — the `primary_key` record apart, which is how the model keeps a table-level
+    primary key — are exactly the reference table's indexes (name, column list, uniqueness, normalised index type, in
+    order), its foreign-key records exactly the reference table's foreign keys (name, column, referenced table and
+    column, in order), and every table, column, index and key record is live (`Migration.Fresh`); a second pass over
+    the reader beside `Rel` (Proofs/Elems.lean, Proofs/FidelityElems.lean), including DROP COLUMN's clean-up loops
+    (the column is stripped from every index, an index left empty is forgotten, the keys on the column are dropped).
+
+  Missing: the same for the primary key (two representations in the model, recorded finding
+  `pk-inline-vs-table-level`), and for RENAME COLUMN (a
   renamed record is no longer a plain `add` record: recorded region `rename-column`).  They are covered by correspondence (white-box state after every script, including the position maps,
   plus `invCheck` on the Go state) and by the executable predicate (dump → grammar → reference engine) on every case.
 -/
@@ -36,6 +46,7 @@ import SqlizeModel.Spec.Scope
 import SqlizeModel.Generated.Facts
 import SqlizeModel.Proofs.ReaderPending
 import SqlizeModel.Proofs.FidelityMain
+import SqlizeModel.Proofs.FidelityElems
 
 namespace Sqlize.C05
 open Sqlize Sqlize.Spec
@@ -113,6 +124,33 @@ theorem names_positions_types_options (rc : Bool) (ss : List Stmt) (db : DB) (hs
       ∀ (i j : Nat) (tm : Table) (tb : TableSpec) (c : Column) (cs : ColSpec), m.tables[i]? = some tm → db[i]? = some tb →
         tm.cols[j]? = some c → tb.cols[j]? = some cs → (Table.optKinds c.cur.opts).Perm cs.opts :=
   ReaderMysql.fidelity_options rc ss db hs he
+
+/-- … and, table by table, the reference schema's indexes and foreign keys, every record live -/
+theorem indexes_and_foreign_keys (rc : Bool) (ss : List Stmt) (db : DB) (hs : ss.all Stmt.elemSafe = true)
+    (he : execAll rc [] ss = some db) :
+    ∃ m, ReaderMysql.run {} ss = .ok m ∧ colView m = specView db ∧
+      m.tables.map (fun t => (idxSpecOf t.idxs, fkSpecOf t.fks)) = db.map (fun tb => (tb.idxs, tb.fks)) ∧
+      m.Inv ∧ m.NoPending ∧ m.Fresh :=
+  ReaderMysql.fidelity_elems rc ss db hs he
+
+-- non-vacuity of `indexes_and_foreign_keys`: a script with a table-level primary key, two indexes (one of them losing a
+-- column, one losing its only column), a dropped index, two foreign keys (one on a column that is dropped later)
+def exElems : List Stmt :=
+  [.createTable "u" 0 [{ name := "id", typ := "int(11)" }] ["id"],
+   .createTable "t" 0 [{ name := "a", typ := "int(11)" }, { name := "b", typ := "int(11)" }, { name := "c", typ := "text" }] [],
+   .createIndex "t" "i_ab" ["a", "b"] true "",
+   .createIndex "t" "i_b" ["b"] false "HASH",
+   .createIndex "t" "i_c" ["c"] false "",
+   .addFk "t" "fk_a" "a" "u" "id",
+   .addFk "t" "fk_b" "b" "u" "id",
+   .addPrimaryKey "t" ["a"],
+   .dropIndex "t" "i_c",
+   .dropColumn "t" "b"]
+example : exElems.all Stmt.elemSafe = true := by decide
+example : (execAll true [] exElems).map (fun db => db.map (fun tb => (tb.idxs, tb.fks))) =
+    some [([], []), ([{ name := "i_ab", cols := ["a"], unique := true }], [{ name := "fk_a", col := "a", refT := "u", refC := "id" }])] := by decide
+example : (ReaderMysql.run {} exElems).toOption.map (fun m => m.tables.map (fun t => (t.idxs.map (·.name), t.fks.map (·.name)))) =
+    some [(["primary_key"], []), (["i_ab", "primary_key"], ["fk_a"])] := by rfl
 
 -- non-vacuity: a two-table script with positional adds interleaved across tables, a drop and a modify
 def exScript : List Stmt :=
